@@ -31,6 +31,7 @@ import (
 type handlerChecker struct {
 	w    *world // only for the fixed keys/addresses
 	fail func(check, what string)
+	x    *stepper // the arithmetic layer (used to price the rewards of the other reward paths)
 }
 
 func newHandlerChecker(w *world, fail func(check, what string)) *handlerChecker {
@@ -175,3 +176,108 @@ func (h *handlerChecker) check(s *st, m *mv, ns *st, changed bool) (ok bool) {
 // entries of a state were created in its current epoch (an epoch change pays
 // all of them), so it is epoch + 1; after a completion nothing is pending.
 func (s *st) epochEnd() beacon.EpochTime { return s.epoch + 1 }
+
+// checkRewardPaths runs the two other reward paths of the real code on state s
+// - AddRewards (epoch rewards) and AddRewardSingleAttenuated (proposer reward),
+// both with the escrow account's commission schedule at the given rate - with
+// a reward schedule that makes the reward equal to the active balance (resp.
+// half of it), observes the amount Q that left the common pool and requires
+// exactly the successor the arithmetic layer computes for reward(Q, rate):
+// the non-commission part raises the share price first, then the commission is
+// deposited for the owner at the new price.
+func (h *handlerChecker) checkRewardPaths(s *st, rate uint64) (ok bool) {
+	ok = true
+	if h.x == nil {
+		return true
+	}
+	for _, pathName := range []string{"AddRewards", "AddRewardSingleAttenuated"} {
+		func() {
+			defer func() {
+				if p := recover(); p != nil {
+					ok = false
+					h.fail("panic", fmt.Sprintf("%s panicked: %v", pathName, p))
+				}
+			}()
+			addrs := h.w.addrs
+			cfg := &abciAPI.MockApplicationStateConfig{CurrentEpoch: s.epoch}
+			app := abciAPI.NewMockApplicationState(cfg)
+			ctx := app.NewContext(abciAPI.ContextEndBlock)
+			defer ctx.Close()
+			ms := stakingState.NewMutableState(ctx.State())
+			must := func(err error) {
+				if err != nil {
+					panic(fmt.Sprintf("harness: loading state: %v", err))
+				}
+			}
+			must(ms.SetConsensusParameters(ctx, &staking.ConsensusParameters{DebondingInterval: 1,
+				RewardSchedule: []staking.RewardStep{{Until: s.epoch + 1000, Scale: *staking.RewardAmountDenominator.Clone()}}}))
+			must(ms.SetCommonPool(ctx, s.common.Clone()))
+			for j := 0; j < N; j++ {
+				acct := &staking.Account{}
+				acct.General.Balance = *s.gen[j].Clone()
+				if j == 0 {
+					acct.Escrow.Active = clonePool(&s.esc.Active)
+					acct.Escrow.Debonding = clonePool(&s.esc.Debonding)
+					if rate != 0 {
+						acct.Escrow.CommissionSchedule = staking.CommissionSchedule{
+							Rates:  []staking.CommissionRateStep{{Start: 0, Rate: *quantity.NewFromUint64(rate)}},
+							Bounds: []staking.CommissionRateBoundStep{{Start: 0, RateMin: *quantity.NewFromUint64(0), RateMax: *quantity.NewFromUint64(100000)}},
+						}
+					}
+				}
+				must(ms.SetAccount(ctx, addrs[j], acct))
+				if !s.del[j].Shares.IsZero() {
+					must(ms.SetDelegation(ctx, addrs[j], addrs[0], &staking.Delegation{Shares: *s.del[j].Shares.Clone()}))
+				}
+			}
+			c2 := app.NewContext(abciAPI.ContextEndBlock)
+			defer c2.Close()
+			var herr error
+			one := quantity.NewFromUint64(1)
+			if pathName == "AddRewards" {
+				herr = ms.AddRewards(c2, s.epoch, one, []staking.Address{addrs[0]})
+			} else {
+				herr = ms.AddRewardSingleAttenuated(c2, s.epoch, one, 1, 2, addrs[0])
+			}
+			if herr != nil {
+				ok = false
+				h.fail("handler_differs_from_arithmetic", fmt.Sprintf("%s in %s failed: %v", pathName, s.sn, herr))
+				return
+			}
+			cp, err := ms.CommonPool(ctx)
+			must(err)
+			q := new(big.Int).Sub(s.sn.common, bi(cp))
+			if q.Sign() < 0 {
+				ok = false
+				h.fail("handler_differs_from_arithmetic", fmt.Sprintf("%s in %s increased the common pool", pathName, s.sn))
+				return
+			}
+			want := s
+			if q.Sign() > 0 {
+				want = h.x.reward(s, &mv{op: opReward, amt: q, rate: rate})
+				if want == nil {
+					ok = false
+					return
+				}
+			}
+			acct, err := ms.Account(ctx, addrs[0])
+			must(err)
+			gotB, gotT := bi(&acct.Escrow.Active.Balance), bi(&acct.Escrow.Active.TotalShares)
+			if gotB.Cmp(want.sn.B) != 0 || gotT.Cmp(want.sn.T) != 0 {
+				ok = false
+				h.fail("handler_differs_from_arithmetic", fmt.Sprintf("%s with commission rate %d/100000 in %s paid %s: the real code gives active balance=%s shares=%s, a reward that first raises the share price and then deposits the commission gives balance=%s shares=%s", pathName, rate, s.sn, q, gotB, gotT, want.sn.B, want.sn.T))
+				return
+			}
+			for j := 0; j < N; j++ {
+				del, err := ms.Delegation(ctx, addrs[j], addrs[0])
+				must(err)
+				if bi(&del.Shares).Cmp(want.sn.sh[j]) != 0 {
+					ok = false
+					h.fail("handler_differs_from_arithmetic", fmt.Sprintf("%s with commission rate %d/100000 in %s paid %s: delegator d%d holds %s shares, expected %s", pathName, rate, s.sn, q, j, bi(&del.Shares), want.sn.sh[j]))
+					return
+				}
+			}
+		}()
+	}
+	return ok
+}
